@@ -30,12 +30,12 @@ WANTED = ["CodeSingleUse", "AtMostOneRelease", "ProofSingleUse", "HolderStoresOw
 DEVIATIONS = {
     "CodeSingleUse": ("AtomicRedeem", "code-reused"),
     "AtMostOneRelease": ("BurnOnRelease", "multiple-releases"),
-    "ProofSingleUse": ("NonceSingleUse", "proof-replayed"),
+    "ProofSingleUse": ("NonceSingleUse and BurnOnRelease", "proof-replayed"),
     "OnlySubjectObtains": ("NonceSingleUse (with LeakRequest)", "credential-to-non-subject"),
     "HolderStoresOwn": ("HolderChecksSubject", "holder-stored-foreign-subject"),
     "NoPanic": ("NonceTypeChecked", "handler-panic"),
 }
-CHECKS = ["proof", "sig", "signer", "aud", "typ", "nonce", "nonceflow", "ctype", "exp", "burncode", "htype", "hverify"]
+CHECKS = ["proof", "sig", "signer", "aud", "typ", "nonce", "nonceflow", "ctype", "exp", "burncode", "htype", "hverify", "mdid"]
 ASSUMPTIONS = [
     "two real VCR instances (issuer node, wallet node) built with vcr.NewTestVCRContext; the OpenID4VCI handlers are the ones "
     "vcr.GetOpenIDIssuer / GetOpenIDHolder construct, reached through the real API wrappers (vcr/api/openid4vci/v0) on echo; a shim "
@@ -64,7 +64,7 @@ def tlc(cfg, workers, **kw):
     return r
 
 
-SINGLE = [("NonceSingleUse", "ProofSingleUse"), ("BurnOnRelease", "AtMostOneRelease"), ("AtomicRedeem", "CodeSingleUse"),
+SINGLE = [("NonceSingleUse", "OnlySubjectObtains"), ("BurnOnRelease", "AtMostOneRelease"), ("AtomicRedeem", "CodeSingleUse"),
           ("HolderChecksSubject", "HolderStoresOwn"), ("NonceTypeChecked", "NoPanic")]
 CHECKED = ("presc", "desc", "descobs", "presc.time", "desc.time", "descobs.time", "live", "livepresc")
 
@@ -75,7 +75,8 @@ def model_runs(tier, seed, quick):
     if quick:
         groups = [
             [("presc", "Oid4vci.presc.quick.cfg", 2, {}), ("desc", "Oid4vci.desc.quick.cfg", 2, {}),
-             ("dev", "Oid4vci.dev.gen.cfg", 2, {}), ("live", "Oid4vci.live.cfg", 1, {}), ("livepresc", "Oid4vci.livepresc.cfg", 1, {})],
+             ("dev", "Oid4vci.dev.gen.cfg", 1, {}), ("attackx", "Oid4vci.attackx.gen.cfg", 1, {}),
+             ("live", "Oid4vci.live.cfg", 1, {}), ("livepresc", "Oid4vci.livepresc.cfg", 1, {})],
             [("attack", "Oid4vci.attack.gen.quick.cfg", 3, {}), ("gen", "Oid4vci.gen.quick.cfg", 3, {}),
              ("descobs", "Oid4vci.descobs.quick.cfg", 1, {}),
              ("sim", "Oid4vci.sim.cfg", 1, dict(simulate="num=150", depth=30, seed=seed))]]
@@ -88,7 +89,7 @@ def model_runs(tier, seed, quick):
              ("sim", "Oid4vci.sim.cfg", 1, dict(simulate="num=1500", depth=30, seed=seed))],
             [("presc.time", "Oid4vci.presc.time.cfg", 2, {}), ("desc.time", "Oid4vci.desc.time.cfg", 2, {}),
              ("descobs.time", "Oid4vci.descobs.time.cfg", 2, {}), ("dev", "Oid4vci.dev.gen.cfg", 2, {})],
-            [("gen", "Oid4vci.gen.thorough.cfg", 3, {})] + [("dev1." + c, "Oid4vci.dev1.%s.cfg" % c, 1, {}) for c, _ in SINGLE]]
+            [("gen", "Oid4vci.gen.thorough.cfg", 2, {}), ("attackx", "Oid4vci.attackx.gen.cfg", 1, {})] + [("dev1." + c, "Oid4vci.dev1.%s.cfg" % c, 1, {}) for c, _ in SINGLE]]
     out = {}
     for group in groups:
         with ThreadPoolExecutor(max_workers=len(group)) as ex:
@@ -100,13 +101,28 @@ def model_runs(tier, seed, quick):
         if name in out and out[name].violation:
             m = out[name]
             raise Inconclusive("the model %s violates %s (specification error, not a verdict):\n%s" % (m.cfg, m.violation, m.raw[-2500:]))
-    for name in ("dev", "attack", "gen", "sim"):
+    for name in ("dev", "attack", "attackx", "gen", "sim"):
         if not out[name].ok:
             raise Inconclusive("generation run %s failed: %s" % (out[name].cfg, out[name].violation))
     for c, inv in SINGLE:
         m = out.get("dev1." + c)
         if m is not None and m.violation != inv:
             raise Inconclusive("the prescriptive model with only %s = FALSE should break %s, TLC says %s (specification error)" % (c, inv, m.violation))
+    return out
+
+
+def action_coverage(raw):
+    """Action -> number of states generated, from `-coverage` output. Disjuncts of Next that sit under a quantifier are reported
+    as <Next ... (line col line col)>: the action name is read from that line of the specification."""
+    lines = open(os.path.join(vlib.SPEC, "Oid4vci.tla")).read().split("\n")
+    alias = {"OfferTo": "Offer", "WCredO": "WCred", "ForgeDo": "Forge", "WTokXDo": "WTokX", "AttackerRequestO": "ACred"}
+    out = collections.Counter()
+    for m in re.finditer(r"^<(\w+) line \d+, col \d+ to line \d+, col \d+ of module Oid4vci(?: \((\d+) \d+ \d+ \d+\))?>: (\d+):(\d+)", raw, re.M):
+        name = m.group(1)
+        if name == "Next" and m.group(2):
+            found = re.findall(r"(\w+)\(", lines[int(m.group(2)) - 1]) or re.findall(r"\\/ (\w+)\s*$", lines[int(m.group(2)) - 1])
+            name = found[-1] if found else name
+        out[alias.get(name, name)] += int(m.group(4))
     return out
 
 
@@ -125,7 +141,7 @@ def features(steps):
         elif a == "TokEnd":
             fs.add((a, s["p"], s["ok"], s["lost"]))
         elif a == "Recv":
-            fs.add((a, s["o"]["iss"], s["o"]["typ"], s["o"]["code"] == "junk", s["again"]))
+            fs.add((a, s["o"]["iss"], s["o"]["claim"], s["o"]["typ"], s["o"]["code"] == "junk", s["again"]))
         else:
             fs.add((a,))
     names = [s["a"] + (":" + s["p"] if "p" in s else "") for s in steps]
@@ -179,7 +195,7 @@ def build_scripts(runs, quick, rnd):
     gen["deviation_witnesses"] = dict(available=len(dev), groups=ng, replayed=len(picked))
     for i, b in enumerate(picked):
         scripts.append(dict(id="dev%05d" % i, steps=b["h"], ttl=1, origin="deviation", broken=sorted(b["broken"])))
-    att = runs["attack"].printed
+    att = runs["attack"].printed + runs["attackx"].printed
     picked, ng = group_pick(att, lambda b: (tuple(b["h"][0]["off"]), tuple(sorted(b["broken"])), last_sig(b["h"])), 3 if quick else 8, rnd)
     gen["attack_witnesses"] = dict(available=len(att), groups=ng, replayed=len(picked),
                                    per_check=dict(collections.Counter(b["h"][0]["off"][0] for b in att)))
@@ -261,9 +277,23 @@ def validate(traces, cfg, timeout=900):
 
 
 def execute(binary, scripts):
+    """Runs the scripts on up to 8 driver processes. A shard whose process did not come up / died is started again (twice at
+    most): every process boots two nodes with embedded services on free TCP ports, which can collide on a busy machine."""
     if not scripts:
         return []
-    return vlib.run_driver_parallel(binary, dict(scripts=scripts), shards=min(8, max(1, len(scripts) // 40)), timeout=600)
+    shards = min(8, max(1, len(scripts) // 40))
+    parts = [scripts[i::shards] for i in range(shards)]
+    def one(part):
+        last = None
+        for attempt in range(3):
+            try:
+                return vlib.run_driver(binary, dict(scripts=part), timeout=300)
+            except Inconclusive as e:
+                last = e
+        raise last
+    with ThreadPoolExecutor(max_workers=shards) as ex:
+        outs = list(ex.map(one, parts))
+    return [r for o in outs for r in o]
 
 
 def strip(sc):
@@ -319,15 +349,15 @@ def run(prop, tier, seed, replay=None):
     cover = collections.Counter()
     for n in CHECKED:
         if n in runs:
-            cover.update(runs[n].coverage)
+            cover.update(action_coverage(runs[n].raw))
     if not quick:
-        dead = [a for a in ACTIONS if cover.get(a, 0) == 0 and cover.get(a + "O", 0) == 0 and cover.get(a + "Do", 0) == 0]
-        if cover and dead:
+        dead = [a for a in ACTIONS if cover.get(a, 0) == 0]
+        if dead:
             raise Inconclusive("vacuity: actions never fire in the exhaustive runs: %s" % dead)
     # what the specification predicts
     predicted = sorted(set(n for b in runs["dev"].printed for n in b["broken"]))
     needed = collections.defaultdict(set)           # check -> kept invariants that break without it
-    for b in runs["attack"].printed:
+    for b in runs["attack"].printed + runs["attackx"].printed:
         needed[b["h"][0]["off"][0]] |= set(b["broken"])
     redundant = [c for c in CHECKS if c not in needed]
 
@@ -374,7 +404,7 @@ def run(prop, tier, seed, replay=None):
         if sc["origin"] == "attack":
             # the real code has the check the model lacked: the attack must have been stopped (no violation of a kept property)
             if not any(v["kind"].startswith(("release-", "token-", "credential-to-non-subject", "holder-stored-un", "code-reused")) and
-                       not (v["kind"] == "credential-to-non-subject" and v["sig"].get("how") == "replayed-wallet-proof" and v["sig"].get("proof_audience") == "I") and
+                       not (v["kind"] == "credential-to-non-subject" and v["sig"].get("proof_origin") == "served-request") and
                        not (v["kind"] == "code-reused" and v["sig"].get("pattern") == "concurrent") for v in r["violations"]):
                 attack_stopped[sc["off"][0]] += 1
     if ninc <= max(1, len(results) // 200):
